@@ -138,7 +138,7 @@ func init() {
 
 		// ---- route parser: participle is reflection-driven; inside the interpreter the
 		// harness parser (validated natively against the real one on every run) stands in.
-		"github.com/flamego/flamego/internal/route.NewParser": extRouteNewParser,
+		"github.com/flamego/flamego/internal/route.NewParser":       extRouteNewParser,
 		"(*github.com/flamego/flamego/internal/route.Parser).Parse": extRouteParse,
 
 		// ---- logging (formatting and logging are never the subject)
@@ -1042,4 +1042,185 @@ func extRequestCookie(fr *frame, args []value) value {
 		return tuple{&cell, iface{}}
 	}
 	return noCookie
+}
+
+// ---- environment stubs used by Static (C16): each records its arguments in
+// the path's stub log, which the harness reads with vx.StubLog().
+func init() {
+	externals[vxPath+".StubLog"] = func(fr *frame, args []value) value {
+		out := make([]value, len(fr.i.ex.stubLog))
+		copy(out, fr.i.ex.stubLog)
+		return out
+	}
+	externals["os.Open"] = func(fr *frame, args []value) value {
+		fr.i.ex.stubLog = append(fr.i.ex.stubLog, mkString(append(strBytes("os.Open "), strBytes(args[0])...)))
+		return tuple{(*value)(nil), iface{errorType, "open: no such file or directory (stub)"}}
+	}
+	externals["os.Stat"] = func(fr *frame, args []value) value {
+		fr.i.ex.stubLog = append(fr.i.ex.stubLog, mkString(append(strBytes("os.Stat "), strBytes(args[0])...)))
+		return tuple{iface{}, iface{errorType, "stat: no such file or directory (stub)"}}
+	}
+	externals["net/http.Redirect"] = extHTTPRedirect
+	externals["net/http.ServeContent"] = extHTTPServeContent
+	externals["(time.Time).UTC"] = func(fr *frame, args []value) value { return args[0] }
+	externals["(time.Time).Format"] = func(fr *frame, args []value) value { return "<time>" }
+}
+
+func methodOf(i *interpreter, w iface, name string) *ssa.Function {
+	f := i.prog.LookupMethod(w.t, nil, name)
+	if f == nil {
+		panic(engineError("no method " + name + " on " + w.t.String()))
+	}
+	return f
+}
+
+// http.Redirect(w, r, url, code): records (url, code), sets Location to the
+// url as given, sends the status. The body and net/http's URL clean-up are
+// not modelled.
+func extHTTPRedirect(fr *frame, args []value) value {
+	w := args[0].(iface)
+	code := args[3]
+	fr.i.ex.stubLog = append(fr.i.ex.stubLog, mkString(append(append(strBytes("redirect "), strBytes(args[2])...), strBytes(" "+strconv.Itoa(int(fr.i.concInt(code))))...)))
+	hdr := call(fr.i, fr, token.NoPos, methodOf(fr.i, w, "Header"), []value{w.v})
+	extHeaderSet(fr, []value{hdr, "Location", args[2]})
+	call(fr.i, fr, token.NoPos, methodOf(fr.i, w, "WriteHeader"), []value{w.v, code})
+	return nil
+}
+
+// http.ServeContent(w, req, name, modtime, content): records the name, sends
+// 200 and copies the content through Read. Range / conditional requests and
+// content-type sniffing are not modelled.
+func extHTTPServeContent(fr *frame, args []value) value {
+	w := args[0].(iface)
+	content := args[4].(iface)
+	fr.i.ex.stubLog = append(fr.i.ex.stubLog, mkString(append(strBytes("servecontent "), strBytes(args[2])...)))
+	call(fr.i, fr, token.NoPos, methodOf(fr.i, w, "WriteHeader"), []value{w.v, 200})
+	read := methodOf(fr.i, content, "Read")
+	for k := 0; k < 64; k++ {
+		buf := make([]value, 16)
+		for j := range buf {
+			buf[j] = uint8(0)
+		}
+		r := call(fr.i, fr, token.NoPos, read, []value{content.v, buf}).(tuple)
+		n := int(fr.i.concInt(r[0]))
+		if n > 0 {
+			call(fr.i, fr, token.NoPos, methodOf(fr.i, w, "Write"), []value{w.v, buf[:n]})
+		}
+		if r[1].(iface).t != nil || n == 0 {
+			break
+		}
+	}
+	return nil
+}
+
+// ---- errors.Is / errors.As / errors.Unwrap (the real ones use reflectlite)
+func init() {
+	externals["errors.Is"] = extErrorsIs
+	externals["errors.Unwrap"] = func(fr *frame, args []value) value { return fr.i.unwrapErr(fr, args[0].(iface)) }
+	externals["errors.As"] = extErrorsAs
+}
+
+func (i *interpreter) methodByName(t types.Type, name string) *ssa.Function {
+	if t == nil || t == rtypeType || t == errorType {
+		return nil
+	}
+	ms := i.prog.MethodSets.MethodSet(t)
+	for k := 0; k < ms.Len(); k++ {
+		if ms.At(k).Obj().Name() == name {
+			return i.prog.MethodValue(ms.At(k))
+		}
+	}
+	return nil
+}
+
+func (i *interpreter) unwrapErr(fr *frame, e iface) value {
+	if e.t == nil {
+		return iface{}
+	}
+	if m := i.methodByName(e.t, "Unwrap"); m != nil {
+		if m.Signature.Results().Len() == 1 {
+			if _, isSlice := m.Signature.Results().At(0).Type().Underlying().(*types.Slice); !isSlice {
+				return call(i, fr, token.NoPos, m, []value{e.v})
+			}
+		}
+	}
+	return iface{}
+}
+
+func extErrorsIs(fr *frame, args []value) value {
+	err, target := args[0].(iface), args[1].(iface)
+	if err.t == nil || target.t == nil {
+		return err.t == nil && target.t == nil
+	}
+	for depth := 0; depth < 32 && err.t != nil; depth++ {
+		if sameType(err.t, target.t) {
+			eq := fr.i.eqTerm(err.t, err.v, target.v)
+			if fr.i.ex.Branch(eq) {
+				return true
+			}
+		}
+		if m := fr.i.methodByName(err.t, "Is"); m != nil && m.Signature.Params().Len() == 1 {
+			r := call(fr.i, fr, token.NoPos, m, []value{err.v, target})
+			if b, ok := r.(bool); ok && b {
+				return true
+			}
+		}
+		next := fr.i.unwrapErr(fr, err)
+		err = next.(iface)
+	}
+	return false
+}
+
+func extErrorsAs(fr *frame, args []value) value {
+	err := args[0].(iface)
+	tgt := args[1].(iface)
+	ptr, ok := tgt.t.Underlying().(*types.Pointer)
+	if !ok || tgt.v.(*value) == nil {
+		panic(targetPanic{iface{fr.i.runtimeErrorString, "errors: target must be a non-nil pointer"}})
+	}
+	want := ptr.Elem()
+	for depth := 0; depth < 32 && err.t != nil; depth++ {
+		if it, isIface := want.Underlying().(*types.Interface); isIface {
+			if types.Implements(err.t, it) {
+				*tgt.v.(*value) = err
+				return true
+			}
+		} else if types.Identical(err.t, want) {
+			*tgt.v.(*value) = err.v
+			return true
+		}
+		err = fr.i.unwrapErr(fr, err).(iface)
+	}
+	return false
+}
+
+// ---- encoding/json and encoding/xml encoders (C17): reflection-driven, out of
+// the interpreter's reach. NewEncoder/SetIndent/Indent run from SSA; Encode is
+// stubbed: it records (value, indent) and writes a marker through the
+// encoder's writer. "The body decodes back" is the encoders' own contract.
+func init() {
+	externals["(*encoding/json.Encoder).Encode"] = func(fr *frame, args []value) value {
+		pkg := fr.i.prog.ImportedPackage("encoding/json")
+		et := pkg.Type("Encoder").Type()
+		e := (*args[0].(*value)).(structure)
+		w := e[structFieldIndex(et, "w")].(iface)
+		indent := e[structFieldIndex(et, "indentValue")]
+		fr.i.ex.stubLog = append(fr.i.ex.stubLog, mkString(append(append(strBytes("json.Encode "+toStringSym(args[1])+" indent="), strBytes(indent)...))))
+		call(fr.i, fr, token.NoPos, methodOf(fr.i, w, "Write"), []value{w.v, strBytes("<json>")})
+		return iface{}
+	}
+	externals["(*encoding/xml.Encoder).Encode"] = func(fr *frame, args []value) value {
+		pkg := fr.i.prog.ImportedPackage("encoding/xml")
+		et := pkg.Type("Encoder").Type()
+		pt := pkg.Type("printer").Type()
+		e := (*args[0].(*value)).(structure)
+		p := e[structFieldIndex(et, "p")].(structure)
+		indent := p[structFieldIndex(pt, "indent")]
+		bw := (*p[structFieldIndex(pt, "w")].(*value)).(structure)
+		bpkg := fr.i.prog.ImportedPackage("bufio")
+		w := bw[structFieldIndex(bpkg.Type("Writer").Type(), "wr")].(iface)
+		fr.i.ex.stubLog = append(fr.i.ex.stubLog, mkString(append(append(strBytes("xml.Encode "+toStringSym(args[1])+" indent="), strBytes(indent)...))))
+		call(fr.i, fr, token.NoPos, methodOf(fr.i, w, "Write"), []value{w.v, strBytes("<xml>")})
+		return iface{}
+	}
 }
